@@ -5,7 +5,7 @@ import ast
 import re
 from fractions import Fraction as F
 
-from vlib.absint import Interp, Obj, Arr, Arr2, FuncV, ClassV, Frame, explore, R, num, Unknown, NotInFragment
+from vlib.absint import Interp, Obj, Arr, Arr2, FuncV, ClassV, Frame, BoundBuiltin, explore, R, num, Unknown, NotInFragment
 from vlib.poly import Op, Poly
 from vlib.loader import Repo, AnalysisError, norm
 from vlib import world as W
@@ -160,25 +160,60 @@ def check_windows(repo, rep):
 def check_partial(repo, rep, tier):
     rid = "C07-R2b"
     rep.rule(rid, "partial candle published at a fill: the number of 1m candles aggregated is (minutes since the window start) + 1 "
-                  "for every residue of the fill minute modulo the timeframe (enumerated per timeframe), taken from the tail of the stored 1m candles")
+                  "for every residue of the fill minute modulo the timeframe (enumerated per timeframe), where the windows are the "
+                  "simulators' own (counted from the first stored candle) - also for 3D / 1W windows of a session that starts on a day "
+                  "which is not a multiple of the timeframe from the epoch; taken from the tail of the stored 1m candles")
     fn = repo.func(BT, "_update_all_routes_a_partial_candle")
     asg = [n for n in ast.walk(fn) if isinstance(n, ast.Assign) and isinstance(n.targets[0], ast.Name) and n.targets[0].id == "number_of_needed_candles"]
     if len(asg) != 1:
         raise AnalysisError("_update_all_routes_a_partial_candle: number_of_needed_candles assignment not found")
+    # the statements of the route loop body up to (and including) that assignment, minus the route filter
+    loop = next(n for n in ast.walk(fn) if isinstance(n, ast.For) and any(x is asg[0] for x in ast.walk(n)))
+    pre = []
+    for st in loop.body:
+        if isinstance(st, ast.If):
+            continue
+        pre.append(st)
+        if st is asg[0]:
+            break
+    if asg[0] not in pre:
+        raise AnalysisError("_update_all_routes_a_partial_candle: assignment is not a top-level statement of the route loop")
     tfs = [3, 5, 15, 30, 45, 60] if tier == "quick" else [3, 5, 15, 30, 45, 60, 120, 180, 240, 360, 480, 720, 1440]
-    base = 1_600_000_000_000 // (43200 * MIN) * (43200 * MIN)
-    for tf in tfs:
+    day = 1440
+    # (timeframe minutes, session start in minutes since the epoch, residues to try): the last two start on a day that is not a
+    # multiple of 3D / 1W from the epoch (2021-01-01 = day 18628 = 3 * 6209 + 1 = 7 * 2661 + 1)
+    cases = [(tf, (1_600_000_000_000 // (43200 * MIN)) * 43200, list(range(tf))) for tf in tfs]
+    cases += [(4320, 18628 * day, [0, 1, 1439, 1440, 2000, 2880, 4319]), (10080, 18628 * day, [0, 1440, 5000, 10079])]
+    name_by_minutes = {v: k for k, v in {"3m": 3, "5m": 5, "15m": 15, "30m": 30, "45m": 45, "1h": 60, "2h": 120, "3h": 180, "4h": 240, "6h": 360, "8h": 480,
+                                         "12h": 720, "1D": 1440, "3D": 4320, "1W": 10080}.items()}
+    for tf, start_min, residues in cases:
         bad = None
-        for k in range(tf):
+        for k in residues:
+            windows_before = 2
+            count = windows_before * tf + k + 1                  # stored 1m candles, the executing one included
+            ts = (start_min + windows_before * tf + k) * MIN
             it = Interp(repo, stubs=W.base_stubs())
-            fr = Frame(repo.module(BT), {"storable_temp_candle": Arr([num(base + k * MIN)] + [A(x) for x in "ochlv"]), "tf_minutes": num(tf)})
-            v = it.eval(asg[0].value, fr)
+            storage = Obj("DynamicNumpyArray", name="storage-1m", attrs={"__len__": BoundBuiltin(lambda i, a, kk, c=count: num(c))})
+            cs = Obj("CandlesState", name="store.candles", attrs={}, open_world=True)
+            W.bind(cs, "get_storage", lambda i, a, kk, st_=storage: st_)
+            it.overrides[f"{W.STORE}:store"] = Obj("StoreClass", name="store", attrs={"candles": cs}, open_world=True)
+            fr = Frame(repo.module(BT), {"storable_temp_candle": Arr([num(ts)] + [A(x) for x in "ochlv"]), "timeframe": name_by_minutes[tf],
+                                        "exchange": "Sandbox", "symbol": "BTC-USDT", "route": {"timeframe": name_by_minutes[tf], "exchange": "Sandbox", "symbol": "BTC-USDT"}})
+            try:
+                for st in pre:
+                    it.exec(st, fr)
+            except NotInFragment as e:
+                raise AnalysisError(f"_update_all_routes_a_partial_candle: window arithmetic not interpretable: {e}")
+            v = fr.locals.get("number_of_needed_candles")
             if not (isinstance(v, R) and v.is_const() and v.const_value() == k + 1):
                 bad = (k, v)
                 break
         if bad:
-            rep.violation(rid, "partial|count", f"partial {tf}m candle at minute {bad[0]} of its window aggregates {bad[1]!r} one-minute candles, expected {bad[0] + 1}")
-        rep.instance(rid, f"tf={tf}", {"timeframe_minutes": tf, "residues": tf})
+            aligned = start_min % tf == 0
+            rep.violation(rid, "partial|count" + ("" if aligned else "|session-start-not-on-the-epoch-grid"),
+                          f"partial {name_by_minutes[tf]} candle at minute {bad[0]} of its window aggregates {bad[1]!r} one-minute candles, expected {bad[0] + 1}"
+                          + ("" if aligned else f" (session start = day {start_min // day} since the epoch, which is not a multiple of the timeframe: the windows are counted from the first candle)"))
+        rep.instance(rid, f"tf={tf}|start={start_min}", {"timeframe_minutes": tf, "residues": len(residues)})
     # the aggregated slice is the tail of the stored 1m candles of that length
     uses = [n for n in ast.walk(fn) if isinstance(n, ast.Subscript) and isinstance(n.slice, ast.Slice) and n.slice.upper is None
             and isinstance(n.slice.lower, ast.UnaryOp) and isinstance(n.slice.lower.op, ast.USub) and norm(n.slice.lower.operand) == "number_of_needed_candles"]
